@@ -5,10 +5,10 @@ package main
 
 import (
 	"fmt"
-	"reflect"
 	"go/constant"
 	"go/token"
 	"go/types"
+	"reflect"
 	"sort"
 	"strings"
 
